@@ -43,12 +43,13 @@ def load_known():
 RESULT_CACHE = os.path.join(common.CACHE, "results")
 
 
-def tree_key(sc):
-    """content hash of everything a harness result depends on except the harness selection"""
+def tree_key(sc, crate="rsadsb_common"):
+    """content hash of everything a harness result of `crate` depends on except the harness selection"""
     import hashlib
     h = hashlib.sha256()
-    roots = [os.path.join(sc.dir, "libadsb_deku", "src"), os.path.join(sc.dir, "rsadsb_common", "src"),
-             os.path.join(common.DEKU_MODEL, "src"), os.path.join(common.TRACING_SHIM, "src")]
+    roots = [os.path.join(sc.dir, "libadsb_deku", "src"), os.path.join(common.DEKU_MODEL, "src")]
+    if crate != "adsb_deku":
+        roots += [os.path.join(sc.dir, "rsadsb_common", "src"), os.path.join(common.TRACING_SHIM, "src")]
     for root in roots:
         if not os.path.isdir(root):
             continue
@@ -75,7 +76,7 @@ def run_group(pid, tier, crate, feat, obls, jobs):
     Results are cached by content hash (sources of this tree + spec + harness + tool versions), so
     that properties sharing a harness pay for it once per tree state."""
     sc0 = build.make_scratch(obls, "kani")
-    tk = tree_key(sc0)
+    tk = tree_key(sc0, crate)
     sc0.cleanup()
     cached = {}
     todo = []
